@@ -654,7 +654,8 @@ class CSSMatch(_DocumentNav):
         """Filter the language tags."""
 
         match = True
-        lang_range = RE_WILD_STRIP.sub('-', lang_range).lower()
+        # Collapse implicit wildcards; a trailing wildcard is redundant and is removed completely.
+        lang_range = RE_WILD_STRIP.sub(lambda m: '-' if m.end(0) < len(m.string) else '', lang_range).lower()
         ranges = lang_range.split('-')
         subtags = lang_tag.lower().split('-')
         length = len(ranges)
